@@ -208,6 +208,81 @@ theorem extend_exact_lax_general (base B : Doc) (hb : NoExt base) (env : Env) (l
   rw [extend_lax_is_strict_on_kept]
   exact extend_exact_strict base (laxKeep live B) hb env live hbuild c hc d v hroot
 
+/-! ### the order of the definitions in the extension document does not matter -/
+
+/-- **extend_perm**: two orderings of one extension document (the extension blocks of each target in the same relative
+    order — an extension block may stand BEFORE the definition it extends) give schemas with the same content. -/
+theorem extend_perm (base B₁ B₂ : Doc) (hb : NoExt base) (env : Env) (live : Live)
+    (hbuild : buildIgnoringExtensions base [] = .ok (env, live))
+    (c₁ c₂ : ExtCollected) (hc₁ : collectExtensions live B₁ true = .ok c₁) (hc₂ : collectExtensions live B₂ true = .ok c₂)
+    (d₁ : SchemaD) (v : SdlOK (base ++ B₁) d₁) (hp : B₁.Perm B₂)
+    (hx : SameExtOrder B₁ B₂) (hsx : schemaExtensions B₁ = schemaExtensions B₂)
+    (hroot : schemaDefs base ≠ [] ∨ ∀ t ∈ typeDefs B₁, t.name ≠ "Query" ∧ t.name ≠ "Mutation" ∧ t.name ≠ "Subscription") :
+    ∃ r₁ r₂, extendSchemaPublic (typeDefs base) (directiveDefs base) live B₁ true = .ok r₁ ∧
+      extendSchemaPublic (typeDefs base) (directiveDefs base) live B₂ true = .ok r₂ ∧ SameContent (toSchemaD r₁) (toSchemaD r₂) := by
+  have hp' : (base ++ B₁).Perm (base ++ B₂) := hp.append_left base
+  have hx' : SameExtOrder (base ++ B₁) (base ++ B₂) := by
+    intro n; rw [typeExts_append, typeExts_append, List.filter_append, List.filter_append, hx n]
+  have hsx' : schemaExtensions (base ++ B₁) = schemaExtensions (base ++ B₂) := by
+    rw [schemaExtensions_append, schemaExtensions_append, hsx]
+  obtain ⟨d₂, v₂, hT, hD, hq, hm, hs⟩ := sdlOK_perm _ _ d₁ v hp' hx' hsx'
+  have hroot₂ : schemaDefs base ≠ [] ∨ ∀ t ∈ typeDefs B₂, t.name ≠ "Query" ∧ t.name ≠ "Mutation" ∧ t.name ≠ "Subscription" := by
+    rcases hroot with h | h
+    · exact Or.inl h
+    · exact Or.inr (fun t ht => h t ((typeDefs_perm hp).mem_iff.mpr ht))
+  obtain ⟨r₁, hr₁, e₁⟩ := extend_exact_strict base B₁ hb env live hbuild c₁ hc₁ d₁ v hroot
+  obtain ⟨r₂, hr₂, e₂⟩ := extend_exact_strict base B₂ hb env live hbuild c₂ hc₂ d₂ v₂ hroot₂
+  refine ⟨r₁, r₂, hr₁, hr₂, ?_⟩
+  rw [e₁, e₂]
+  exact ⟨hq, hm, hs, fun t => hT.mem_iff, fun d => hD.mem_iff⟩
+
+/-- when no type is extended twice, EVERY reordering keeps the per-target order of the extension blocks -/
+theorem filter_name_le_one (l : List TypeDef) (h : (l.map (·.name)).Nodup) (n : String) : (l.filter (·.name == n)).length ≤ 1 := by
+  induction l with
+  | nil => simp
+  | cons x xs ih =>
+    simp only [List.map_cons, List.nodup_cons] at h
+    rw [List.filter_cons]
+    by_cases hx : (x.name == n) = true
+    · simp only [hx, if_true, List.length_cons]
+      have : xs.filter (·.name == n) = [] := by
+        rw [List.filter_eq_nil_iff]
+        intro y hy hyn
+        have e1 : x.name = n := by simpa using hx
+        have e2 : y.name = n := by simpa using hyn
+        exact h.1 (by rw [e1, ← e2]; exact List.mem_map_of_mem hy)
+      rw [this]; simp
+    · simp only [hx, Bool.false_eq_true, if_false]; exact ih h.2
+
+theorem sameExtOrder_of_nodup (B₁ B₂ : Doc) (hp : B₁.Perm B₂) (h : ((typeExts B₁).map (·.name)).Nodup) : SameExtOrder B₁ B₂ :=
+  fun n => perm_short ((typeExts_perm hp).filter _) (filter_name_le_one _ h n)
+
+/-- non-vacuity of `extend_perm`: `gB` (new type extended before its definition, new directive, extensions of three old
+    types, new root) and its reversal -/
+example : ∃ env live r₁ r₂, buildIgnoringExtensions gBase [] = .ok (env, live) ∧
+    extendSchemaPublic (typeDefs gBase) (directiveDefs gBase) live gB true = .ok r₁ ∧
+    extendSchemaPublic (typeDefs gBase) (directiveDefs gBase) live gB.reverse true = .ok r₂ ∧ SameContent (toSchemaD r₁) (toSchemaD r₂) := by
+  cases h : buildIgnoringExtensions gBase [] with
+  | error e => have : (buildIgnoringExtensions gBase []).toBool = true := by decide
+               rw [h] at this; cases this
+  | ok p =>
+    obtain ⟨env, live⟩ := p
+    have hcb : (match buildIgnoringExtensions gBase [] with
+                | .ok (_, l) => (collectExtensions l gB true).toBool && (collectExtensions l gB.reverse true).toBool
+                | .error _ => false) = true := by decide
+    rw [h] at hcb
+    simp only [Bool.and_eq_true] at hcb
+    cases hc₁ : collectExtensions live gB true with
+    | error e => rw [hc₁] at hcb; cases hcb.1
+    | ok c₁ =>
+      cases hc₂ : collectExtensions live gB.reverse true with
+      | error e => rw [hc₂] at hcb; cases hcb.2
+      | ok c₂ =>
+        have hp : gB.Perm gB.reverse := (List.reverse_perm gB).symm
+        obtain ⟨r₁, r₂, h1, h2, h3⟩ := extend_perm gBase gB gB.reverse ⟨rfl, rfl⟩ env live h c₁ c₂ hc₁ hc₂ _ gBoth_ok hp
+          (sameExtOrder_of_nodup _ _ hp (by decide)) rfl (Or.inr (by decide))
+        exact ⟨env, live, r₁, r₂, rfl, h1, h2, h3⟩
+
 /-! ### an evaluated instance: a redefinition, a `schema` block, an extension of an unknown type and a redefined
 specified directive are dropped; the new type, its extension and the extension of an old type are kept -/
 
